@@ -224,6 +224,10 @@ pub fn check_history(h: &History, info: &mut CaseInfo) -> Result<(), String> {
 		info.class("encoded");
 		let mut params = rcgen::CertificateParams::default();
 		params.distinguished_name = dn;
+		// as a CA certificate every other time (an empty name included)
+		if h.ops.len() % 2 == 0 {
+			params.is_ca = rcgen::IsCa::Ca(rcgen::BasicConstraints::Unconstrained);
+		}
 		let key = encode_key()?;
 		params.key_identifier_method = rcgen::KeyIdMethod::PreSpecified(vec![1]);
 		let cert = params.self_signed(&key).map_err(|e| format!("self_signed failed: {e}"))?;
